@@ -172,29 +172,37 @@ package store
 
 // hasNode(l, k): the node list l contains a record with id k (quantified over positions of the backing array)
 //@ pure hasNode(l []Node, k NodeID) bool = exists p int :: off(l) <= p && p < off(l) + len(l) && elems(l)[p].ID == k
+// inNodes(l, n): the record n is an element of l
+//@ pure inNodes(l []Node, n Node) bool = exists p int :: off(l) <= p && p < off(l) + len(l) && elems(l)[p] == n
 //@ pure distinctIDs(l []Node) bool = forall p int, q int :: off(l) <= p && p < q && q < off(l) + len(l) ==> elems(l)[p].ID != elems(l)[q].ID
 
+// lastNodePeers / lastActiveHosts: what the two most recent queries returned (ghost), for callers' postconditions
+//@ ghost var lastNodePeers []Node
+//@ ghost var lastActiveHosts []Node
+
 //@ interface store.PoolStore.NodePeers(nodeID) (result, err)
+//@ defines [last]     err == nil ==> lastNodePeers == result
 //@ ensures [errkind]  plainError(err)
 //@ ensures [unreg]    !this.reg[nodeID] ==> err == ErrUnregisteredNode
 //@ ensures [members]  err == nil ==> forall p int :: off(result) <= p && p < off(result) + len(result) ==>
 //@                       this.tracked[nodeID][elems(result)[p].ID] && this.reg[elems(result)[p].ID] && elems(result)[p] == this.node[elems(result)[p].ID]
 //@ ensures [complete] err == nil ==> forall k NodeID :: this.tracked[nodeID][k] && this.reg[k] ==> hasNode(result, k)
 //@ ensures [distinct] err == nil ==> distinctIDs(result)
-//@ modifies nothing
+//@ modifies lastNodePeers
 
 // eligible(s, kind, since, n): n is a full-node host of the requested kind (any kind when empty) that checked in after since
 //@ pure eligibleHost(n Node, kind string, since int) bool = n.IsHost && (kind == "" || n.Kind == kind) && n.LastSeen > since
 
 //@ interface store.PoolStore.ActiveHosts(kind, limit) (result, err)
 //@ requires limit >= 0
+//@ defines [last]     err == nil ==> lastActiveHosts == result
 //@ ensures [errkind]  plainError(err)
 //@ ensures [eligible] err == nil ==> forall p int :: off(result) <= p && p < off(result) + len(result) ==>
 //@                       this.reg[elems(result)[p].ID] && elems(result)[p] == this.node[elems(result)[p].ID] && eligibleHost(elems(result)[p], kind, clock() - ExpireInterval)
 //@ ensures [distinct] err == nil ==> distinctIDs(result)
 //@ ensures [limit]    err == nil && limit > 0 ==> len(result) <= limit
 //@ ensures [supply]   err == nil && (limit == 0 || len(result) < limit) ==> forall k NodeID :: this.reg[k] && eligibleHost(this.node[k], kind, clock() - ExpireInterval) ==> hasNode(result, k)
-//@ modifies clock
+//@ modifies clock, lastActiveHosts
 
 //@ interface store.PoolStore.RemoveNode(nodeID) (err)
 //@ modifies this.reg, this.node
